@@ -58,16 +58,30 @@ CtxDefs(ctx, evf) ==
           [name |-> "RB", kind |-> "message", inner |-> "Root",
            fields |-> << MFld(1, "m", R("Ev"), FALSE), MFld(2, "post", P("uint32"), FALSE) >>] >>
 
-\* pairs: new type x one/two new fields x deprecation variant x context
-NNew == Len(NewTypes)
-NPairs == NNew * 2 * 2 * Len(Ctxs4)
-NewOf(p)  == NewTypes[((p - 1) % NNew) + 1]
-TwoOf(p)  == (((p - 1) \div NNew) % 2) = 1
-DepOf(p)  == DepVars[(((p - 1) \div (NNew * 2)) % 2) + 1]
-CtxOfP(p) == Ctxs4[((p - 1) \div (NNew * 4)) + 1]
+\* other shapes of the older message: "many" - nine fields, so that the new indices have two digits;
+\* "empty" - a placeholder without fields, so that everything the newer peer sends is unknown
+ManyT(j) == CASE j % 3 = 1 -> P("int32") [] j % 3 = 2 -> P("string") [] OTHER -> P("bool")
+ManyFields == [j \in 1..9 |-> MFld(j, "a" \o ToString(j), ManyT(j), FALSE)]
+EvFields1V(var) == IF var = "many" THEN ManyFields ELSE <<>>
+EvFields2V(var, nt, two) ==
+  LET base == IF var = "many" THEN 9 ELSE 0 IN
+  EvFields1V(var) \o << MFld(base + 1, "n", nt, FALSE) >> \o (IF two THEN << MFld(base + 2, "m", P("int64"), FALSE) >> ELSE <<>>)
+Variants == <<"many", "empty">>
 
-S1Of(p) == CtxDefs(CtxOfP(p), EvFields1(DepOf(p)))
-S2Of(p) == NewOf(p).sup \o CtxDefs(CtxOfP(p), EvFields2(NewOf(p).t, TwoOf(p)))
+\* pairs: new type x one/two new fields x deprecation variant x context; then variant x 4 new types x one/two x context
+NNew == Len(NewTypes)
+NPairsAB == NNew * 2 * 2 * Len(Ctxs4)
+NPairs == NPairsAB + 2 * 4 * 2 * Len(Ctxs4)
+IsAB(p) == p <= NPairsAB
+XQ(p) == p - NPairsAB - 1
+VarOf(p)  == IF IsAB(p) THEN "ab" ELSE Variants[(XQ(p) % 2) + 1]
+NewOf(p)  == IF IsAB(p) THEN NewTypes[((p - 1) % NNew) + 1] ELSE NewTypes[((XQ(p) \div 2) % 4) + 1]
+TwoOf(p)  == IF IsAB(p) THEN (((p - 1) \div NNew) % 2) = 1 ELSE ((XQ(p) \div 8) % 2) = 1
+DepOf(p)  == IF IsAB(p) THEN DepVars[(((p - 1) \div (NNew * 2)) % 2) + 1] ELSE FALSE
+CtxOfP(p) == IF IsAB(p) THEN Ctxs4[((p - 1) \div (NNew * 4)) + 1] ELSE Ctxs4[(XQ(p) \div 16) + 1]
+
+S1Of(p) == CtxDefs(CtxOfP(p), IF IsAB(p) THEN EvFields1(DepOf(p)) ELSE EvFields1V(VarOf(p)))
+S2Of(p) == NewOf(p).sup \o CtxDefs(CtxOfP(p), IF IsAB(p) THEN EvFields2(NewOf(p).t, TwoOf(p)) ELSE EvFields2V(VarOf(p), NewOf(p).t, TwoOf(p)))
 
 S1 == S1Of(pi)
 S2 == S2Of(pi)
@@ -92,7 +106,8 @@ ForwardCompat ==
 Export ==
   /\ (pi > 0 /\ vi = 0) =>
         PrintT("@@SCHEMA " \o ToJson([sid |-> pi, defs |-> S1, defs2 |-> S2, tag |-> NewOf(pi).tag,
-                                      ctx |-> CtxOfP(pi) \o (IF DepOf(pi) THEN "+dep" ELSE "") \o (IF TwoOf(pi) THEN "+2" ELSE "")]))
+                                      ctx |-> CtxOfP(pi) \o (IF DepOf(pi) THEN "+dep" ELSE "") \o (IF TwoOf(pi) THEN "+2" ELSE "")
+                                              \o (IF IsAB(pi) THEN "" ELSE "+" \o VarOf(pi))]))
   /\ IsCase => PrintT("@@CASE " \o ToJson([sid |-> pi, vi |-> vi, opts |-> <<>>, mask |-> 0, root |-> "Root",
                                  v |-> V, enc |-> E, want |-> Canon(S1, RootT, RestrictTo(S1, S2, RootT, V)),
                                  asis |-> ADecTop(S1, RootT, E)]))
